@@ -475,7 +475,7 @@ theorem inv_deleteEdge (s : St) (e : Nat) (h : Inv s) : Inv (apply s (.deleteEdg
 
 theorem inv_updateNode (s : St) (n : Nat) (lab : Option Nat) (v : Nat) (h : Inv s) :
     Inv (apply s (.updateNode n lab v)).2 := by
-  simp only [apply, Op.prog, updateNodeProg, run1]
+  simp only [apply, Op.prog, updateNodeProg, updateNodeSecond, updateNodePut, run1]
   cases hv : s.kv (.node n) with
   | none => simp only [run1]; exact h
   | some val =>
@@ -502,7 +502,7 @@ theorem inv_updateNode (s : St) (n : Nat) (lab : Option Nat) (v : Nat) (h : Inv 
     | list l => simp only [hv, run1]; exact key _
 
 theorem inv_updateEdge (s : St) (e v : Nat) (h : Inv s) : Inv (apply s (.updateEdge e v)).2 := by
-  simp only [apply, Op.prog, updateEdgeProg, run1]
+  simp only [apply, Op.prog, updateEdgeProg, updateEdgeSecond, run1]
   cases hv : s.kv (.edge e) with
   | none => simp only [edgeOf, run1]; exact h
   | some val =>
@@ -510,7 +510,7 @@ theorem inv_updateEdge (s : St) (e v : Nat) (h : Inv s) : Inv (apply s (.updateE
     | node l v0 => simp only [edgeOf, run1]; exact h
     | list l => simp only [edgeOf, run1]; exact h
     | edge r =>
-      simp only [edgeOf, hv, run1]
+      simp only [edgeOf, hv, updateEdgePut, run1]
       have hr : edgeAt s.kv e = some r := by simp [edgeAt, hv]
       refine ⟨?_, ?_, ?_, ?_⟩
       · apply wf_same_shape h.wf
